@@ -221,12 +221,14 @@ impl<'source, Token: Logos<'source>> Lexer<'source, Token> {
     pub fn bump(&mut self, n: usize) {
         #[cfg(logos_verif)]
         crate::verif::emit(crate::verif::BUMP, n, self.token_end, 0);
-        self.token_end += n;
+        // Validate the new end before storing it, so that a panicking `bump` (caught by the
+        // caller) leaves the lexer untouched, and so that an overflowing `n` panics in release
+        // builds too instead of wrapping around.
+        let token_end = self.token_end.checked_add(n).expect("Invalid Lexer bump");
 
-        assert!(
-            self.source.is_boundary(self.token_end),
-            "Invalid Lexer bump",
-        )
+        assert!(self.source.is_boundary(token_end), "Invalid Lexer bump",);
+
+        self.token_end = token_end;
     }
 }
 
